@@ -921,6 +921,9 @@ func c07Instances(add func(*Instance), thorough bool) {
 					}
 					if ka == 224 && kb == 21 && (op == 8 || op == 4) {
 						tier = 1 // run andNot array: hundreds of paths with bitmap conversions
+						if op == 8 && mut == 0 {
+							continue // the in-place form followed by a mutation of the result: > 20 min, not registered in any tier
+						}
 					}
 					pp := with(win, "ak", 1, "akeys", 4, "acow", 0, "ac0", ka, "bk", 1, "bkeys", 4, "bcow", 0, "bc0", kb, "op", op, "mut", mut, "mk", 1, "pre", 0, "xb", 56, "xm", 15)
 					add(&Instance{Func: "VerifC07Op", Tier: tier, Params: pp})
